@@ -116,23 +116,24 @@ Cond(form, s, tv, lim) ==
 \* j-th element of the reference sequence of n elements
 RefElem(form, a, s, n, j) == IF form = "fwd" THEN a + (j - 1) * s ELSE a + (n - j) * s
 
-\* The loop proper.  tv: loop variable, j: iterations done, ok: every iteration so far
-\* saw the reference's element.  Result: m = iterations before the first event or the
-\* natural end, ev = the event (<<>>: natural end).  A walk that leaves the reference
-\* stops at once with ok = FALSE.
+\* The loop proper.  tv: loop variable, j: iterations done.  Result: m = iterations before
+\* the first event or the natural end, ev = the event (<<>>: natural end), ok = every
+\* iteration saw the reference's element (a walk that leaves the reference stops at once).
+IncEv(t, v) == LET A == AT(t) IN
+               IF ~InR(A.w, A.s, v) THEN <<"inc", IF A.s THEN 2 ELSE 1>>
+               ELSE IF ~InR(t.w, t.s, v) THEN <<"inc", 3>> ELSE <<>>
 RECURSIVE Walk(_, _, _, _, _, _, _, _)
 Walk(t, form, a, s, n, lim, tv, j) ==
-  LET k == Abs(s) A == AT(t) d == IF Dec(form, s) THEN -k ELSE k IN
   IF ~Cond(form, s, tv, lim) THEN [m |-> j, ev |-> <<>>, ok |-> TRUE]
   ELSE IF Special(t, form, s) THEN
-         LET y == tv - k e == FirstEv("inc", <<Chk(A, y), ChkSt(t, y)>>) IN
-         IF e # <<>> THEN [m |-> j, ev |-> e, ok |-> TRUE]
+         LET y == tv - Abs(s) IN
+         IF IncEv(t, y) # <<>> THEN [m |-> j, ev |-> IncEv(t, y), ok |-> TRUE]
          ELSE IF j + 1 > n \/ y # RefElem(form, a, s, n, j + 1) THEN [m |-> j + 1, ev |-> <<>>, ok |-> FALSE]
          ELSE Walk(t, form, a, s, n, lim, y, j + 1)
        ELSE
          IF j + 1 > n \/ tv # RefElem(form, a, s, n, j + 1) THEN [m |-> j + 1, ev |-> <<>>, ok |-> FALSE]
-         ELSE LET z == tv + d e == FirstEv("inc", <<Chk(A, z), ChkSt(t, z)>>) IN
-              IF e # <<>> THEN [m |-> j + 1, ev |-> e, ok |-> TRUE]
+         ELSE LET z == IF Dec(form, s) THEN tv - Abs(s) ELSE tv + Abs(s) IN
+              IF IncEv(t, z) # <<>> THEN [m |-> j + 1, ev |-> IncEv(t, z), ok |-> TRUE]
               ELSE Walk(t, form, a, s, n, lim, z, j + 1)
 
 Run(t, form, a, b, s) ==
@@ -157,15 +158,20 @@ Grid(t) == {v \in {MinOf(t), MinOf(t) + 1, MinOf(t) + 2, MinOf(t) + 3, MinOf(t) 
                      MaxOf(t) \div 2, MaxOf(t) \div 2 + 1} : v >= MinOf(t) /\ v <= MaxOf(t)}
 Dom(t) == IF GridOnly THEN Grid(t) ELSE MinOf(t)..MaxOf(t)
 
+\* the row of a case is computed by a transition (TLC evaluates initial states in one thread only)
 Init == /\ ty \in Types /\ form \in {"fwd", "rev"} /\ step \in Steps /\ start \in Dom(ty)
-        /\ row = [b \in Dom(ty) |-> Run(ty, form, start, b, step)]
-Next == UNCHANGED vars
+        /\ row = <<>>
+Compute == /\ row = <<>>
+           /\ row' = [b \in Dom(ty) |-> Run(ty, form, start, b, step)]
+           /\ UNCHANGED <<ty, form, step, start>>
+Next == Compute
 Spec == Init /\ [][Next]_vars
+Done == row # <<>>
 
 Stops == Dom(ty)
 
 (* the reference sequence is the declaratively specified range, in order *)
-RefSound == \A b \in Stops :
+RefSound == (Done /\ form = "fwd" /\ ty.bw = 0) => \A b \in Stops :
   LET q == RefSeq("fwd", start, b, step) r == RefSeq("rev", start, b, step) n == Len(q) IN
   /\ \A j \in 1..n : InRange(q[j], start, b, step)
   /\ Cardinality({x \in Dom(ty) : InRange(x, start, b, step)}) = n      \* with the next line: q enumerates exactly the members
@@ -175,25 +181,25 @@ RefSound == \A b \in Stops :
 
 (* template facts: else iff no break; final value = value of the last executed *)
 (* iteration, untouched when there was none; everything visited was iterated   *)
-BodySound == \A b \in Stops : \A body \in Bodies :
+BodySound == (Done /\ ty.bw = 0) => \A b \in {x \in Stops : RangeLen(start, x, step) <= 6} : \A body \in Bodies :
   LET q == RefSeq(form, start, b, step) o == Obs(q, body) IN
   /\ o.els = ~(body.bk > 0 /\ body.bk <= Len(q) /\ body.bk # body.ck)
   /\ (Len(q) = 0 => o.fin = Sent /\ o.vis = <<>> /\ o.els)
   /\ (Len(q) > 0 /\ o.els => o.fin = q[Len(q)])
   /\ Len(o.vis) <= Len(q)
-  /\ \A j \in 1..Len(o.vis) : \E i \in 1..Len(q) : q[i] = o.vis[j] /\ i # body.ck
+  /\ \A j \in 1..Len(o.vis) : InRange(o.vis[j], start, b, step)
 
 (* the property on the model: the simulated C loop follows the reference      *)
 (* exactly up to its first wrap event, and ends where the reference ends when *)
 (* there is none (all values fit T on that path by construction) ...          *)
-ImplFollowsRef == \A b \in Stops : row[b].ok /\ row[b].m <= row[b].n /\ (row[b].ev = <<>> => row[b].m = row[b].n)
+ImplFollowsRef == Done => \A b \in Stops : row[b].ok /\ row[b].m <= row[b].n /\ (row[b].ev = <<>> => row[b].m = row[b].n)
 (* ... hence a body that is not exposed to the event observes what the reference observes *)
-ImplAgreesOffHazards == \A b \in Stops : \A body \in Bodies :
+ImplAgreesOffHazards == Done => \A b \in {x \in Stops : row[x].ev # <<>>} : \A body \in Bodies :
   LET r == row[b] q == RefSeq(form, start, b, step) IN
   ~Exposed(r, body) => Obs(SubSeq(q, 1, IF r.ev = <<>> THEN r.n ELSE r.m), body) = Obs(q, body)
 
 (* and the hazards are confined to the shapes the C code suggests *)
-HazardShape == \A b \in Stops :
+HazardShape == Done => \A b \in Stops :
   LET r == row[b] IN
   r.ev # <<>> =>
     \/ r.ev[1] = "inc" /\ r.m = r.n /\ (Abs(step) > 1 \/ form = "rev")  \* stepping past the type bound after the last element
@@ -202,7 +208,7 @@ HazardShape == \A b \in Stops :
 
 StopSeq == LET RECURSIVE S(_) S(set) == IF set = {} THEN <<>> ELSE LET m == CHOOSE x \in set : \A y \in set : x <= y IN <<m>> \o S(set \ {m})
            IN S(Stops)
-Publish == Dump => PrintT("@@" \o ToJson(
+Publish == (Dump /\ Done) => PrintT("@@" \o ToJson(
    [w |-> ty.w, s |-> ty.s, pw |-> ty.pw, bw |-> ty.bw, form |-> form, step |-> step, start |-> start,
     stops |-> StopSeq,
     n |-> [i \in 1..Len(StopSeq) |-> row[StopSeq[i]].n],
